@@ -1,6 +1,7 @@
 # execsim engine: one project analysed by the reference configuration (-j1) and by subject runs under the
 # thread scheduler / process transport with seeded schedules and benign perturbations (C15, C24, C25, C17).
 import copy
+import fnmatch
 import os
 import re
 
@@ -9,11 +10,18 @@ from ..core import Rng
 from ..engine import Outcome
 from .base import STD, exec_args, gen_run, plan_of, not_meta, crashed, classify_diff, exotic_tag, crash_text, split_static_function, K8_SIG
 
-WP_UNMATCHED = re.compile(r"Unmatched suppression: (unusedFunction|staticFunction|ctu\w+)$")
+UNMATCHED_PREFIX = "Unmatched suppression: "
 
 
 def is_wp_related(f):
-    return f.id in core.WHOLE_PROGRAM_IDS or (f.id == "unmatchedSuppression" and WP_UNMATCHED.search(f.msg) is not None)
+    """A whole-program finding, or an unmatchedSuppression report about a suppression whose id (possibly a glob such as
+    'unus*') can match a whole-program id: whether that suppression was matched depends on the whole-program findings."""
+    if f.id in core.WHOLE_PROGRAM_IDS:
+        return True
+    if f.id == "unmatchedSuppression" and f.msg.startswith(UNMATCHED_PREFIX):
+        pat = f.msg[len(UNMATCHED_PREFIX):]
+        return any(fnmatch.fnmatchcase(w, pat) for w in core.WHOLE_PROGRAM_IDS)
+    return False
 
 
 SUPPR_IDS = ["zerodiv", "arrayIndexOutOfBounds", "nullPointer", "uninitvar", "unreadVariable", "memleak", "unusedVariable",
@@ -40,7 +48,9 @@ def gen_cmdline_suppressions(rng, units, n=None):
             out.append("--suppress=%s*" % sid[:4])
         else:
             out.append("--suppress=%s:shared.h" % sid)
-    return out
+    # cppcheck rejects a command line that gives the same suppression twice ("suppression '..' already exists", exit 1):
+    # that is an invalid command line, not a run, so repeated draws are dropped (no draw is consumed by this)
+    return [s for i, s in enumerate(out) if s not in out[:i]]
 
 
 def run_pair(scn, wd, out, variant="plain", text_channel=False):
